@@ -23,13 +23,16 @@ VH_DRIVER(file){
   long want=atol(arg_value(argc,argv,"--n",g.thorough?"400000":"30000")); Rng R(g.seed); Guarded a1(1<<16),a2(1<<18),a3(1<<16);
   std::vector<int> alpha={'a','C',':','\\','/','%',' ','#','?','[','.',1,255};
   std::vector<Text> names; int L=g.thorough?5:4;
-  for(int len=0;len<=L;++len){ std::vector<int> ix(len,0); while(true){ Text t; for(int i=0;i<len;++i) t.push_back(alpha[ix[i]]); names.push_back(t); int i=len-1; while(i>=0&&++ix[i]==(int)alpha.size()){ ix[i]=0; --i; } if(i<0) break; } }
   // every code point in each position class: drive letter, server name, first segment, later segment, last character
   for(int c=1;c<=255;++c){ names.push_back(Text{c,':','\\','x'}); names.push_back(T("\\\\s")+Text{c}+T("\\share")); names.push_back(T("\\\\")+Text{c}); names.push_back(Text{c}+T("\\b")); names.push_back(T("a\\")+Text{c}+T("\\")); names.push_back(T("C:\\d\\")+Text{c}); names.push_back(T("/")+Text{c}+T("/")+Text{c}); names.push_back(Text{c}); names.push_back(T("\\\\srv\\sh\\")+Text{c}+T("\\")); }
   for(const char*s:{"\\\\server\\share","\\\\server\\share\\","\\\\my server\\share","\\\\srv%41\\share","\\\\server\\my share\\","c:\\dir\\","c:",".\\sub\\","C:\\Documents and Settings\\x","/bin/bash","/","//x","./configure","a b/c%d","file:x","\\\\s","E:"}) names.push_back(T(s));
+  // drive-absolute names with a later segment shaped like a drive spec, UNC names with several leading separators, 4+ slashes
+  for(const char*s:{"C:\\x\\ :\\y","C:\\a\\b:\\c","D:\\a\\%:","C:\\x\\:","\\\\\\srv\\x","//nas/export","///x","////x","C:\\","C:\\\\x","\\\\srv","\\\\srv\\","a:b\\c","ab:\\c"}) names.push_back(T(s));
+  size_t nforced=names.size();
+  for(int len=0;len<=L;++len){ std::vector<int> ix(len,0); while(true){ Text t; for(int i=0;i<len;++i) t.push_back(alpha[ix[i]]); names.push_back(t); int i=len-1; while(i>=0&&++ix[i]==(int)alpha.size()){ ix[i]=0; --i; } if(i<0) break; } }
   for(int i=0;i<(g.thorough?40000:3000);++i){ Text t; int kind=R.below(4); if(kind==0) t=T("C:\\"); else if(kind==1) t=T("\\\\srv\\"); else if(kind==2) t=T("/"); int n=R.below(40); for(int j=0;j<n;++j){ int k=R.below(8); t.push_back(k==0? '\\' : k==1? '/' : k<4? 1+R.below(255) : alpha[R.below((int)alpha.size())]); } names.push_back(t); }
   size_t total=names.size()*2; double keep= total>(size_t)want? (double)want/total:1.0; long k=0;
-  for(auto&t:names) for(int ux=0;ux<2;++ux){ ++k; if(keep<1.0 && (R.next()%1000000)>=keep*1000000) continue; AW(true,k%2,[&]{ file_event<ApiA>(a1,a2,a3,t,ux); },[&]{ file_event<ApiW>(a1,a2,a3,t,ux); }); g.count(jtext(t)+std::to_string(ux),!t.empty()); if(k%4001==0) g.sample(J().str("name",show(t)).boo("unix",ux).done()); }
+  size_t ni=0; for(auto&t:names){ bool forced= ni++<nforced; for(int ux=0;ux<2;++ux){ ++k; if(!forced && keep<1.0 && (R.next()%1000000)>=keep*1000000) continue; AW(true,k%2,[&]{ file_event<ApiA>(a1,a2,a3,t,ux); },[&]{ file_event<ApiW>(a1,a2,a3,t,ux); }); g.count(jtext(t)+std::to_string(ux),!t.empty()); if(k%4001==0) g.sample(J().str("name",show(t)).boo("unix",ux).done()); } }
   // URI strings on input, incl. the short forms
   for(const char*s:{"file:/x","file:c:/x","file:///C:/x","file://server/share","file:///bin/bash","file://","file:","file:/","file:///","file:////x","file://s","a%20b/c","%41:b","file:///E:/Documents%20and%20Settings","file:%2Fx","FILE:///x","file:///%","file:///%4","file:///a%00b"}) for(int ux=0;ux<2;++ux){ if(g.pair) AW(true,true,[&]{ tofile_event<ApiA>(a1,a3,T(s),ux); },[&]{ tofile_event<ApiW>(a1,a3,T(s),ux); }); else { tofile_event<ApiA>(a1,a3,T(s),ux); tofile_event<ApiW>(a1,a3,T(s),ux); } }
   return 0;
